@@ -36,6 +36,8 @@ fn main() {
             }
         };
         writeln!(out, "{}", res).unwrap();
+        // one answer per input line, visible at once: the runner's watchdog names the line that hangs
+        out.flush().unwrap();
     }
 }
 
